@@ -267,6 +267,7 @@ class PeerConn:
             w.transmit(self.end, out, w.segment(out, atomic_lines=atomic), extra_delay=delay)
         if after == 'truncate_close':
             w.send_fin(self.end, extra_delay=delay)
+            self.end.rx.closed_reader = True
             self.dead = True
         elif after == 'truncate_reset':
             w.send_rst(self.end, extra_delay=delay)
